@@ -76,6 +76,14 @@ def render(res, n):
         src = h + ".dc32 " + "(" * n + "1" + ")" * n + "\n"
     elif res == "nest_unary":
         src = h + ".dc32 " + "-" * n + "1\n"
+    elif res == "nest_unary_paren":
+        src = h + ".dc32 1 + " + "-(" * n + "1" + ")" * n + "\n"
+    elif res == "nest_ifexpr_not":
+        src = h + ".if " + "!" * n + "1\n.db 1\n.endif\n"
+    elif res == "nest_ifexpr_paren":
+        src = h + ".if " + "(" * n + "1" + ")" * n + "\n.db 1\n.endif\n"
+    elif res == "nest_unary_operand":
+        src = h + ".dc32 1 + " + "~" * n + "1\n"
     elif res == "repeat_count":
         src = h + ".repeat %d\n.db 1\n.endr\n" % n
     elif res == "resb":
